@@ -208,6 +208,10 @@ func (sw *subWatch) compare(v *storeView) {
 // opened at drawn moments. Subject C03 (filter headers), C19 (events) or C04
 // (convergence).
 func runFilters(t *testing.T, rc *core.RunCtx) {
+	if isLongRun(rc) {
+		runLongFilters(t, rc)
+		return
+	}
 	tp := rc.Tape
 	params := chainmodel.NewParams(chainmodel.ParamOpts{RetargetInterval: []int{0, 8}[tp.Intn(2)]})
 	w := newWorld(t, rc, params)
